@@ -725,7 +725,10 @@ def mon_c10(ctx, out):
                     unknown = True
                 else:
                     required += v
-        if not unknown and equity < required:
+        # a margin level within 1e-20 of the requirement may be decided either way by 28-digit decimal arithmetic
+        # (conversions through inverted prices): only a real shortfall is a violation
+        if not unknown and equity < required and (getattr(ctx.tr, "exact", True) or
+                                                  equity < required * (1 - F(1, 10 ** 20))):
             out.append(("C10", "margin:loan-granted-below-requirement", k,
                         f"{st['op']} granted with equity {equity} < required {required} (quote {quote})"))
             return
@@ -779,7 +782,9 @@ def mon_c11(ctx, out):
                 if any(s != isym for s, v in l["outstanding"].items() if v):
                     out.append(("C11", "interest:wrong-symbol", k, f"loan {l['idx']}: {l['outstanding']} expected in {isym}"))
                     return
-                if exp is not None and got != exp:
+                # histories in which an inexact decimal operation (a division by a price) influenced something
+                # observable are outside the exactness domain: the exact formula is not compared there
+                if exp is not None and got != exp and getattr(ctx.tr, "exact", True):
                     out.append(("C11", "interest:ne-formula", k, f"loan {l['idx']} ({l['amount']} {l['sym']}, conditions "
                                                                  f"{ctx.cond_of(l['sym'])}): outstanding {got}, expected {exp}"))
                     return
@@ -870,7 +875,8 @@ def mon_c11(ctx, out):
                 for l in left_open:
                     funds = {sname: b["available"] for sname, b in snap["balances"].items()}
                     for r in repaid:
-                        if r["amount"] <= l["amount"]:          # taken after l's turn: give it back
+                        # taken after l's turn (smaller, or equal and created later: the sort is stable): give it back
+                        if r["amount"] < l["amount"] or (r["amount"] == l["amount"] and r["idx"] > l["idx"]):
                             for sname, v in cost(r).items():
                                 funds[sname] = funds.get(sname, ZERO) + v
                     need = {l["sym"]: l["amount"]}
